@@ -671,6 +671,13 @@ func (or *oracle) step(e *env, ctx sdk.Context, run *emit.Run, o opT, ok bool, e
 			or.voted[key(string(h))] = map[int]bool{}
 		}
 		or.voted[key(string(h))][o.V] = true
+		if o.Claim.Batch && !o.Claim.OtherTk { // additionalPatchChecks: not at or after the timeout of a batch that is still pending
+			for _, b := range pre.Bat {
+				if b[0] == uint64(c) && b[1] == uint64(o.Claim.Amt) && b[2] <= o.Claim.Height {
+					out = append(out, viol{"C02:batch-claim-past-timeout-accepted", fmt.Sprintf("chain %d: executed-batch vote at remote height %d accepted for the pending batch %d whose timeout is %d", c, o.Claim.Height, b[1], b[2])})
+				}
+			}
+		}
 		if !bondedBefore {
 			out = append(out, viol{"C02:vote-of-unbonded-accepted", fmt.Sprintf("chain %d: the vote of validator %d was accepted although staking has no Bonded record for it", c, o.V)})
 		}
